@@ -4,25 +4,27 @@ NA_REASONS = {}
 claim("C01", "exploration", "bounded exhaustive input enumeration on the real code against a reference decoder (small-scope model checking)",
       "Every encoder output (dot_bracket, fcfs, each member of all_dot_brackets) is decoded by an independent per-type stack decoder for every "
       "pairing on up to 10 (quick) / 12 (thorough) positions, every chord diagram of up to 4/6 stems with stem lengths and gaps, ladders up to "
-      "30 levels, and every balanced string up to length 8/10; holds for all members of these families, nothing claimed beyond the bounds.",
+      "30 levels, and every balanced string up to length 8/10 (also through the file readers for length <= 6); holds for all members of these families, nothing claimed beyond the bounds.",
       "Trusts CPython and the harness's own decoder (ref2d.decode); CBC is the MILP back-end.", "DESIGN.md 3/C01")
 
 claim("C02", "exploration", "bounded exhaustive input enumeration on the real code against an exact branch-and-bound optimiser (small-scope model checking)",
       "For every pairing on up to 10/12 positions, every chord diagram of up to 4/6 stems with stem lengths up to 3 and ladders up to 8/12 "
       "mutually crossing stems, the decoded optimal notation is proper, its objective equals the exact optimum over all proper level "
-      "assignments, and the three corollaries hold.",
+      "assignments, and the three corollaries hold (a first-come-first-served baseline that is not an encoding of the structure is reported as such).",
       "Only the objective value is compared. Trusts CBC to solve the MILP it is given and the harness's branch-and-bound.", "DESIGN.md 3/C02")
 
 claim("C16", "exploration", "bounded exhaustive input enumeration on the real code against an independent backtracking enumeration of greedy-stable colourings",
       "For every pairing on up to 10/11 positions, every chord diagram of up to 4/6 stems and explicit 7/8-stem conflict graphs, the decoded "
       "members of all_dot_brackets equal, as a set, the greedy-stable proper colourings (product over components), without repetition, "
       "containing the optimal and FCFS notation; the same for every knotted pairing on up to 8/9 positions pushed through the 3D route (synthetic structures "
-      "in 1-4 strands: Mapping2D3D.all_dot_brackets, adapter.extract_secondary_structure_from_external, adapter.main --all-dot-brackets).",
+      "in 1-4 strands: Mapping2D3D.all_dot_brackets, adapter.extract_secondary_structure_from_external, adapter.main --all-dot-brackets) and for 6/15 corpus "
+      "structures through annotator.extract_secondary_structure(all_dot_brackets=True) and annotator.main -a.",
       "Groups of crossing stems have at most 8 members. Trusts the harness's colouring enumerator.", "DESIGN.md 3/C16")
 
 claim("C07", "exploration", "bounded exhaustive input enumeration on the real code against an independent element decomposition (small-scope model checking)",
       "For every pairing on up to 10/12 positions, chord diagrams of up to 4/5 stems and ladders, stems/hairpins/loops/strand coverage/slices "
-      "of BpSeq.elements satisfy the property's definitions, and motif_extractor prints the same elements.",
+      "of BpSeq.elements satisfy the property's definitions, and motif_extractor prints the same elements for --bpseq and --dbn input (also when the "
+      "input uses other bracket levels than the library would choose) with and without its two filter flags.",
       "Strand structure slices are compared with the object's own dot_bracket.", "DESIGN.md 3/C07")
 
 claim("C12", "model_checking", "explicit-state breadth-first search over call histories on live objects with canonical state hashing, against fresh-object reference",
@@ -33,7 +35,7 @@ claim("C12", "model_checking", "explicit-state breadth-first search over call hi
       "State merging relies on the canonical form (entries, pairs, caches, aliasing) determining all futures; deepcopy is trusted.", "DESIGN.md 3/C12")
 
 claim("C13", "model_checking", "exhaustive environment-answer and fault-sequence exploration of the solver seam on the real code, each execution replayed",
-      "All 21 solver configurations and all fault scripts of length <=2/3 over 7 solver behaviours, on every knotted pairing on up to 8/10 "
+      "All 21 solver configurations and all fault scripts of length <=2/3 (3 only up to 9 positions) over 7 solver behaviours, on every knotted pairing on up to 8/10 "
       "positions and chord diagrams of up to 3/4 stems: the conversion never raises, is lossless, equals FCFS whenever no optimum was "
       "delivered and is optimal otherwise.",
       "The solver is substituted at pulp module seams (pulp.HiGHS_CMD, pulp.LpSolverDefault, explicit argument); HiGHS itself is absent.", "DESIGN.md 3/C13")
@@ -50,12 +52,12 @@ claim("C14", "model_checking", "deviation-bounded exploration of set-iteration o
 claim("C20", "exploration", "bounded exhaustive enumeration of documents (deviation-bounded) x all edit operations on the real code, judged through an independent CIF tokenizer",
       "Every generated document within 2 (quick) / 3 (thorough, reduced list) deviations of the base document and the corpus mmCIF files, under every "
       "copy (category, from, to) and replace (category, item, alphabet) choice incl. absent and new ones: only the target item changes, "
-      "copy/replace semantics hold, absent category/source leaves the text untouched, and the CLI writes the library's result.",
+      "copy/replace semantics hold, absent category/source leaves the text untouched, and the CLI writes the library's result (also for mixed-case category and item names).",
       "Trusts the harness tokenizer mc/cif.py; category position in the file and too-short alphabets are outside the property.", "DESIGN.md 3/C20")
 
 claim("C19", "exploration", "exhaustive enumeration of label strings, line sequences and DSSR documents on the real code against a regular-expression grammar",
       "unify_classification on every string up to length 5 (quick) / 6 (thorough) over the 19-symbol FR3D alphabet; every sequence of up to 3/4 lines "
-      "from a 26-line alphabet through parse_fr3d_output; every DSSR document with <=2 pairs and <=1 stack over the stated name and LW alphabets: "
+      "from a 28-line alphabet (incl. residues told apart by insertion code only) through parse_fr3d_output; every DSSR document with <=2 pairs and <=1 stack over the stated name and LW alphabets: "
       "never raises, certain labels filed exactly, underivable labels kept as 'other', malformed lines skipped, DSSR pairs/stacks kept exactly when resolvable and valid.",
       "Grammar in mc/ref/refadapter.py written from the property text; ambiguous labels (e.g. 's55a', 'S55') only have to yield exactly one interaction.", "DESIGN.md 3/C19")
 
@@ -90,26 +92,28 @@ claim("C15", "exploration", "deviation-bounded exhaustive enumeration of atom ta
 claim("C18", "exploration", "exhaustive enumeration of a construction lattice (phi x bond lengths x bond angles x rigid motions) and of all corpus torsions on the real code against a reference formula",
       "On every lattice point (74 phi values x 8/27 length triples x 9/25 angle pairs x 27 rotations x 2 translations) both torsion functions are compared with the "
       "constructed phi (value, range, reversal, mirroring, mutual agreement), and every backbone/chi torsion of 7/14 corpus structures through all four "
-      "code paths with the reference formula; the sign inversion of tertiary_v2 is a recorded known finding, every other deviation is a violation.",
+      "code paths with the reference formula, including every alpha..zeta and chi cell of the v2 torsion table (also for structures relabelled to insertion-code "
+      "pairs/triples) and chi asked before and after annotating the same object; the sign inversion of tertiary_v2 is a recorded known finding, every other deviation is a violation.",
       "Reference formula and NeRF construction in mc/ref/reftorsion.py (cross-checked against each other); non-degenerate inputs only.", "DESIGN.md 3/C18")
 
 claim("C17", "exploration", "exhaustive enumeration of a contact lattice and corpus variants under all 32 option combinations on the real code against an O(n^2) enumeration of the definition",
       "3,500+ two-residue placements bracketing every threshold (sum, sum+0.5) from both sides for all C/N/O/P type pairs, occupancy pairs and residue "
       "relations, and corpus structures (as is, compressed, jittered), each under all 32 option combinations: the clash list equals the definition as a set, "
       "each pair once; clashfinder.main's printed maxima equal the maxima over the listed clashes and the CSV lists the same clashes (mmCIF with and "
-      "without exptl/refine metadata, and PDB input).",
+      "without exptl/refine metadata, and PDB input); a report family of four mutually clashing residues under five identity modes (insertion codes, two chains, negative numbers) exercises the aggregation.",
       "Radii read by name from module constants; nucleotide classification taken from Residue3D.is_nucleotide; absent occupancy judged only under ignore-occupancy.", "DESIGN.md 3/C17")
 
 claim("C03", "exploration", "exhaustive enumeration of placement lattices and corpus variant families on the real annotator, plus exhaustive/deviation-bounded exploration of KD-tree pair orders through a module seam, against an O(n^2) reference model",
       "On every structure of the two-nucleotide lattice (15.5k quick / ~600k thorough), the three-nucleotide competition family, every corpus variant "
       "(residue/atom deletions, jitter fields, cube rotations) and under every explored processing order of the hydrogen-bond candidate pairs: reported pairs "
-      "are supported by >= 2 distinct contacts on their edges with the right cis/trans letter, no edge is used twice, and every pair demanded by the definition is reported or blocked by a taken edge.",
+      "are supported by >= 2 distinct contacts on their edges with the right cis/trans letter, no edge is used twice, and every pair demanded by the definition is reported or blocked by a taken edge - for find_pairs and for the pairs inside extract_base_interactions; "
+      "lattice residues rotate through identity modes (descending numbers, insertion codes), modified-residue names and backbone-less (base + C1') variants; one structure object holding two models is queried model by model.",
       "Continuous geometry is covered only on the stated lattices/families; margins below 1e-6 are undecided; reference tables are the harness's own copies.", "DESIGN.md 3/C03, 5.1")
 
 claim("C04", "exploration", "exhaustive enumeration of a stacking placement lattice and corpus variant families on the real annotator against a two-sided geometric reference",
       "On every structure of the stacking lattice (62k quick / ~400k thorough; rises bracket 6 A, tilts bracket 35 degrees, offsets bracket 45 degrees), the coplanar "
       "pair lattice and every corpus variant: the reported stackings lie between the directed and the undirected reading of the definition, carry the "
-      "right label group, appear once and list the lower residue first.",
+      "right label group, appear once and list the lower residue first; one structure object holding two models of different geometry answers for each model separately.",
       "Two-sided oracle because the property leaves the vector direction open; up/down choice within a label group not checked.", "DESIGN.md 3/C04, 5.1")
 
 claim("C11", "exploration", "invariant checking on every annotation produced by the exhaustive lattice/corpus/schedule explorations of C03 and C04, all models of multi-model files, and the CSV/JSON writers",
